@@ -107,10 +107,20 @@ def enumNext (spec : Bool) (args : List String) (out : IO.FS.Stream) : IO Unit :
                else s!"{t.1} {t.2} {b01 (isJie t)} {b01 (isQi t)}"
       out.putStrLn s!"new {y} {idx} {r}"
 
+/-- S stream: the spacing clause holds for every representable adjacent pair -/
+def enumIncSpec (out : IO.FS.Stream) : IO Unit := do
+  forRange 1 9999 fun y => do
+    let mut buf := ""
+    for ii in [0:24] do
+      let g := (24 * (y - 1)).toNat + ii
+      if E.termDay g ≠ 0 ∧ E.termDay (g + 1) ≠ 0 then buf := buf ++ s!"{y} {ii} 1\n"
+    out.putStr buf
+
 def runEnum (name : String) (args : List String) (out : IO.FS.Stream) : Option (IO Unit) :=
   match name with
   | "c06.days" => some (enumDays false args out)
   | "c06.days.spec" => some (enumDays true args out)
+  | "c06.inc.spec" => some (enumIncSpec out)
   | "c06.next" => some (enumNext false args out)
   | "c06.next.spec" => some (enumNext true args out)
   | _ => none
